@@ -1,5 +1,6 @@
 SPECIFICATION Spec
 CONSTANTS Modules = {"csv", "utf8"}
+          Alphabet = "full"
           MaxLen = 5
 INVARIANT NoUngrantedObject
 INVARIANT UntrustedNeverLoadsByPath
